@@ -94,6 +94,8 @@ def main(argv=None):
     a = ap.parse_args(argv)
     pid = a.prop.upper()
     tier = "thorough" if a.tier.startswith("t") else "quick"
+    if tier == "thorough" and "VERIF_XCHECK" not in os.environ:
+        os.environ["VERIF_XCHECK"] = "1"      # thorough: every goal query is re-decided by z3 4.8.12 and cvc5 (SMT-LIB2 dump)
     _SEED = int(os.environ.get("VERIF_SEED", "0") or 0)
     t0 = time.time()
 
@@ -224,6 +226,9 @@ def write_evidence(pid, tier, meta, recs, wall, n_viol):
         "negative_controls_refuted": sum(1 for r in recs if r.get("neg_control") is True),
         "reachability_witnesses": sum(1 for r in recs if r.get("reachable") is True),
         "translator_validations_ok": sum(1 for r in recs if r.get("tv") is True),
+        "cross_solver": {k: {"agree": sum((r.get("cross_solver") or {}).get(k, {}).get("agree", 0) for r in recs),
+                             "unknown_or_timeout": sum((r.get("cross_solver") or {}).get(k, {}).get("unknown", 0) for r in recs)}
+                         for k in ("z3-4.8.12", "cvc5")},
         "programs": sum(r.get("programs", 0) for r in recs),
         "disagreements_checked": sum(r.get("disagreements_checked", 0) for r in recs),
         "outside_claim": meta.get("outside_claim", []),
